@@ -1,6 +1,9 @@
 package zzvh
 
 import (
+	"fmt"
+
+	"github.com/evolbioinfo/gotree/hashmap"
 	"github.com/evolbioinfo/gotree/tree"
 )
 
@@ -55,4 +58,288 @@ func H_C04d_quartet_hash() {
 		sxReach("equal-pair")
 		sxAssert(q1.HashCode() == q2.HashCode(), "HashEquals quartets hash equally")
 	}
+}
+
+// ---------------------------------------------------------------------------
+// C04a: after ReinitIndexes, and after each edit that documents refreshed
+// indexes, the recorded split of every branch equals the split obtained by
+// cutting that branch in the actual tree.
+func H_C04a_index() {
+	n := sxParam("n", 4)
+	t := genTree(n, 2, false)
+	decorate(t, lenAll, true)
+	sxAssert(t.ReinitIndexes() == nil, "ReinitIndexes succeeds")
+	sxAssert(indexAgrees(t) == "", "index describes the tree after ReinitIndexes")
+	sxAssert(rankAgrees(t) == "", "tip indexes are the ranks of the sorted names")
+	sxReach("indexed")
+	switch sxChoose("edit", 8) {
+	case 0:
+		in := innerNodes(t)
+		sxAssert(t.Reroot(in[sxChoose("newroot", len(in))]) == nil, "Reroot succeeds")
+	case 1:
+		t.UnRoot()
+	case 2:
+		sxAssume(n >= 4)
+		sxAssert(t.RemoveTips(false, tipName(sxChoose("tip", n))) == nil, "RemoveTips succeeds")
+	case 3:
+		t.CollapseShortBranches(sxLen("theta"), false, false)
+	case 4:
+		t.RotateInternalNodes()
+	case 5:
+		t.Resolve()
+		// Resolve documents that the bitsets are NOT updated
+		sxAssert(t.ClearBitSets() == nil, "ClearBitSets after Resolve")
+		sxAssert(t.UpdateBitSet() == nil, "UpdateBitSet after Resolve")
+	case 6:
+		full := uint64(1)<<uint(n) - 1
+		sub := uint64(sxChoose("outgroup", 1<<uint(n)))
+		sxAssume(sub != 0 && sub != full)
+		var names []string
+		for i := 0; i < n; i++ {
+			if sub&(1<<uint(i)) != 0 {
+				names = append(names, tipName(i))
+			}
+		}
+		if t.RerootOutGroup(sxChoose("remove", 2) == 1, false, names...) != nil {
+			return
+		}
+	case 7:
+		c := t.Clone()
+		sxAssert(indexAgrees(c) == "", "index of a clone describes the clone")
+		t = c
+	}
+	sxAssert(wellFormed(t) == "", "well-formed after the edit")
+	sxAssert(indexAgrees(t) == "", "index describes the tree after the edit")
+	sxAssert(rankAgrees(t) == "", "tip indexes are ranks after the edit")
+	sxReach("edited")
+}
+
+// rankAgrees: TipIndex(name) is the rank of name among the sorted tip names.
+func rankAgrees(t *tree.Tree) string {
+	tips := t.Tips()
+	for _, a := range tips {
+		rank := 0
+		for _, b := range tips {
+			if b.Name() < a.Name() {
+				rank++
+			}
+		}
+		id, err := t.TipIndex(a.Name())
+		if err != nil {
+			return "TipIndex fails"
+		}
+		if id != rank {
+			return "tip index is not the rank of the name"
+		}
+	}
+	return ""
+}
+
+// ---------------------------------------------------------------------------
+// C04b: equality and hash of branches across presentations. Name hashes are
+// arbitrary (symbolic) 64-bit values, one per distinct name.
+func H_C04b_edge_hash() {
+	n := sxParam("n", 4)
+	sxOpt("stub-tax-hash", true)
+	t1 := genTree(n, 2, false)
+	var t2 *tree.Tree
+	if sxParam("second", 0) == 0 {
+		t2 = genTree(n, 2, false) // any other tree on the same taxa
+	} else {
+		// the same tree under another presentation
+		t2 = t1.Clone()
+		switch sxChoose("present", 2+sxParam("rot", 0)) {
+		case 0:
+			in := innerNodes(t2)
+			sxAssert(t2.Reroot(in[sxChoose("newroot", len(in))]) == nil, "Reroot succeeds")
+		case 1:
+			t2.UnRoot()
+		case 2:
+			t2.RotateInternalNodes() // every draw of every rotation
+		}
+	}
+	sxAssert(t1.ReinitIndexes() == nil, "ReinitIndexes t1")
+	sxAssert(t2.ReinitIndexes() == nil, "ReinitIndexes t2")
+	full := fullMask(t1, nil)
+	es1, es2 := t1.Edges(), t2.Edges()
+	e1 := es1[sxChoose("e1", len(es1))]
+	k1 := canonMask(maskBelow(e1.Right(), e1.Left(), nil), full)
+	sxReach("pair")
+	nsame := 0
+	for _, e2 := range es2 {
+		k2 := canonMask(maskBelow(e2.Right(), e2.Left(), nil), full)
+		same := k1 == k2
+		sxAssert(e1.HashEquals(e2) == same, "HashEquals iff same split")
+		sxAssert(e2.HashEquals(e1) == same, "HashEquals symmetric")
+		if same {
+			nsame++
+			sxAssert(e1.HashCode() == e2.HashCode(), "equal splits hash equally")
+			sxAssert(e1.SameBipartition(e2), "SameBipartition true for the same split")
+			sxAssert(e2.SameBipartition(e1), "SameBipartition symmetric")
+		}
+	}
+	if nsame > 0 {
+		sxReach("same-split")
+	}
+	// one branch with another split: SameBipartition must be false whatever the hashes
+	j := sxChoose("e2", len(es2))
+	e2 := es2[j]
+	// (pairs involving a perfectly balanced split are skipped here: their hash
+	// is a product of two sums, and asking the solver for a 64-bit product
+	// collision does not finish within the query timeout)
+	bal := func(e *tree.Edge) bool { return e.NumTipsLeft() == e.NumTipsRight() }
+	if canonMask(maskBelow(e2.Right(), e2.Left(), nil), full) != k1 && !bal(e1) && !bal(e2) {
+		sxAssert(!e1.SameBipartition(e2), "SameBipartition false for different splits")
+		sxReach("different-split")
+	}
+}
+
+// ---------------------------------------------------------------------------
+// C04c: the hash map behaves like a plain map for every hash-code
+// assignment, initial capacity and the load factors gotree uses.
+
+type c04key struct {
+	id int
+	h  uint64
+}
+
+func (k *c04key) HashCode() uint64 { return k.h }
+func (k *c04key) HashEquals(o hashmap.Hasher) bool {
+	return k.id == o.(*c04key).id
+}
+
+func H_C04c_hashmap() {
+	nkeys := sxParam("keys", 3)
+	nops := sxParam("ops", 4)
+	capacity := 1 + sxChoose("capacity", sxParam("maxcap", 8)) // every value, not only powers of two
+	lfs := []float64{0.5, 0.75, 1.0}
+	lf := lfs[sxChoose("loadfactor", len(lfs))]
+	hm := hashmap.NewHashMap(uint64(capacity), lf)
+	keys := make([]*c04key, nkeys)
+	for i := range keys {
+		keys[i] = &c04key{i, sxU64(fmt.Sprintf("hash%d", i))}
+	}
+	model := map[int]int{}
+	sxReach("built")
+	for s := 0; s < nops; s++ {
+		k := sxChoose("key", nkeys)
+		// a fresh key object with the same identity and hash, as a caller would present it
+		probe := &c04key{keys[k].id, keys[k].h}
+		if sxChoose("op", 2) == 0 {
+			hm.PutValue(probe, 100+s)
+			model[k] = 100 + s
+		}
+		for q := 0; q < nkeys; q++ {
+			v, ok := hm.Value(&c04key{keys[q].id, keys[q].h})
+			mv, mok := model[q]
+			sxAssert(ok == mok, "found exactly the keys that were put")
+			if ok && mok {
+				sxAssert(v.(int) == mv, "value is the last one put")
+			}
+		}
+		kvs := hm.KeyValues()
+		sxAssert(len(kvs) == len(model), "KeyValues has one entry per key")
+		sxAssert(len(hm.Keys()) == len(model), "Keys has one entry per key")
+		seen := map[int]bool{}
+		for _, kv := range kvs {
+			id := kv.Key.(*c04key).id
+			sxAssert(!seen[id], "no duplicate key in KeyValues")
+			seen[id] = true
+			_, mok := model[id]
+			sxAssert(mok, "KeyValues only has keys that were put")
+		}
+	}
+	sxReach("done")
+}
+
+// C04c on the split index itself: AddEdgeCount / Value with real branches of
+// two presentations of one tree as keys, every initial capacity up to maxcap.
+func H_C04c_edgeindex() {
+	n := sxParam("n", 4)
+	// real FNV name hashes here (an integration run over shapes, presentations
+	// and capacities): with arbitrary name hashes every bucket index is a fork
+	// and a product hash in the path condition slows every later query down;
+	// "for all hash values" is the job of H_C04b (hash/equals contract) and
+	// H_C04c_hashmap (map semantics under that contract)
+	t1 := genTree(n, 2, false)
+	t2 := t1.Clone()
+	switch sxChoose("present", 4) {
+	case 0:
+		in := innerNodes(t2)
+		sxAssert(t2.Reroot(in[sxChoose("newroot", len(in))]) == nil, "Reroot succeeds")
+	case 1:
+		t2.UnRoot()
+	case 2:
+		t2.RotateInternalNodes()
+	}
+	sxAssert(t1.ReinitIndexes() == nil, "ReinitIndexes t1")
+	sxAssert(t2.ReinitIndexes() == nil, "ReinitIndexes t2")
+	full := fullMask(t1, nil)
+	capacity := 1 + sxChoose("capacity", sxParam("maxcap", 4))
+	idx := tree.NewEdgeIndex(uint64(capacity), 0.75)
+	count := map[uint64]int{}
+	// keys: every internal branch of both trees plus the tip branch of t0
+	var ins []*tree.Edge
+	for _, tr := range []*tree.Tree{t1, t2} {
+		ins = append(ins, tr.InternalEdges()...)
+		for _, e := range tr.TipEdges() {
+			if e.Right().Name() == tipName(0) {
+				ins = append(ins, e)
+			}
+		}
+	}
+	for _, e := range ins {
+		sxAssert(idx.AddEdgeCount(e) == nil, "AddEdgeCount")
+		count[canonMask(maskBelow(e.Right(), e.Left(), nil), full)]++
+	}
+	sxReach("filled")
+	for _, e := range t2.Edges() {
+		// look up every inserted split through t2's branches, and one absent split (tip t1)
+		if e.Right().Tip() && e.Right().Name() != tipName(0) && e.Right().Name() != tipName(1) {
+			continue
+		}
+		v, ok := idx.Value(e)
+		k := canonMask(maskBelow(e.Right(), e.Left(), nil), full)
+		sxAssert(ok == (count[k] > 0), "found exactly the inserted splits")
+		if ok {
+			sxAssert(v.Count == count[k], "count = number of branches with this split")
+		}
+	}
+	sxAssert(len(idx.Edges(0, 1000)) == len(count), "one entry per distinct split")
+	sxReach("done")
+}
+
+// Edges(min,max) = {count in ]min,max]} U {count == max}, counts and bounds symbolic
+// (real FNV name hashes here: the bucket layout is not the subject).
+func H_C04c_edges_range() {
+	n := sxParam("n", 4)
+	t := genTree(n, 0, false)
+	sxAssert(t.ReinitIndexes() == nil, "ReinitIndexes")
+	idx := tree.NewEdgeIndex(uint64(sxParam("cap", 3)), 0.75)
+	es := t.Edges()
+	counts := make([]int, len(es))
+	for i, e := range es {
+		counts[i] = sxInt(fmt.Sprintf("count%d", i), 0, 4)
+		sxAssert(idx.PutEdgeValue(e, counts[i], 0) == nil, "PutEdgeValue")
+	}
+	// overwrite one entry
+	o := sxChoose("overwrite", len(es))
+	counts[o] = sxInt("newcount", 0, 4)
+	sxAssert(idx.PutEdgeValue(es[o], counts[o], 0) == nil, "PutEdgeValue overwrite")
+	lo := sxInt("min", -1, 5)
+	hi := sxInt("max", -1, 5)
+	sxReach("filled")
+	got := idx.Edges(lo, hi)
+	want := 0
+	for _, c := range counts {
+		if (c > lo && c <= hi) || c == hi {
+			want++
+		}
+	}
+	sxAssert(len(got) == want, "Edges(min,max) returns exactly the splits with count in ]min,max] or == max")
+	for i, e := range es {
+		v, ok := idx.Value(e)
+		sxAssert(ok && v.Count == counts[i], "value is the last one put")
+	}
+	sxReach("done")
 }
